@@ -88,6 +88,9 @@ pub struct Plan {
     pub max_steps: usize,
     /// free-form knobs of a profile (crash sampling rates, rot targets ...)
     pub knobs: std::collections::BTreeMap<String, i64>,
+    /// C02: a second physical realisation of the same logical content and queries
+    #[serde(default)]
+    pub alt: Option<Box<Plan>>,
 }
 
 impl Plan {
